@@ -56,6 +56,15 @@ static bool same(double a, double b)
 #endif
 }
 
+// comparison downstream of a square root whose argument is a DIFFERENT expression on the two sides (k_xv_loo): squares are
+// compared, within a polynomial bracket of 1e-9 relative in BOTH builds (the concrete validation runs of the engine take
+// sqrt from libm as the native build does; symbolically sqrt is exact and the bracket is implied by equality)
+static bool same_sq(double a, double b)
+{
+  double d = a - b;
+  return d * d <= 1.e-18 * (1. + a * a + b * b);
+}
+
 static void base(bool fe, bool fs, bool fv, bool xe, bool xs)
 {
   vf_ks_base();
@@ -149,6 +158,7 @@ extern "C" void k_xv_formula()
   vf_witness();
 }
 
+#if VF_NS == 2 || VF_NS == 3
 // ------------------------------------------------------------------ explicit leave-one-out re-kriging (definition)
 extern "C" void k_xv_loo()
 {
@@ -173,8 +183,6 @@ extern "C" void k_xv_loo()
   adj[0][2] = adj[2][0] = C[0][1] * C[1][2] - C[0][2] * C[1][1];
   adj[1][2] = adj[2][1] = C[0][1] * C[0][2] - C[0][0] * C[1][2];
   det       = C[0][0] * adj[0][0] + C[0][1] * adj[0][1] + C[0][2] * adj[0][2];
-#else
-#  error "k_xv_loo: N in {2,3}"
 #endif
   // positive definite covariance: determinant and every diagonal cofactor positive (so 1 / B_ii > 0 and every
   // leave-one-out sub-system is regular)
@@ -203,6 +211,9 @@ extern "C" void k_xv_loo()
 #if VF_NS == 2
     int    o   = 1 - t;
     double lam = C[o][t] / C[o][o];
+#  if VF_MUT == 2 // self-test of the check only: a wrong weight must be refuted
+    lam = C[o][t] / C[t][t];
+#  endif
     est        = m + lam * (z[o] - m);
     var        = C[t][t] - lam * C[o][t];
 #else
@@ -218,8 +229,9 @@ extern "C" void k_xv_loo()
 #endif
     vf_assert_id(W_n[0] == 1 && W_n[1] == 1, "estimate and standard deviation written once");
     vf_assert_id(same(W_val[0], est), "estimate == leave-one-out simple kriging of sample i from the other samples");
-    vf_assert_id(same(W_val[1], std::sqrt(var)), "standard deviation == square root of the leave-one-out kriging variance");
+    vf_assert_id(W_val[1] >= 0. && same_sq(W_val[1] * W_val[1], var), "standard deviation squared == leave-one-out kriging variance");
   }
   vf_assert_id(T_bad == 0, "callbacks reached with the expected arguments only");
   vf_witness();
 }
+#endif // VF_NS in {2,3}
